@@ -142,3 +142,65 @@ def _not_atom(s):
             if x[0] == "variant" and x[2] == "Not":
                 return "I"
     return None
+
+
+# ---------------------------------------------------------------------- connective constructors are plain wrappers
+CG = "engine::rule::ConditionGroup"
+CTORS = {
+    # constructor -> (variant, {field: param index} , connective constant or None)
+    "single": ("Single", {"0": 1}, None),
+    "and": ("Compound", {"left": 1, "right": 2}, "And"),
+    "or": ("Compound", {"left": 1, "right": 2}, "Or"),
+    "not": ("Not", {"0": 1}, None),
+    "exists": ("Exists", {"0": 1}, None),
+    "forall": ("Forall", {"0": 1}, None),
+}
+
+
+def check_constructors(P, R, clause):
+    """The parser and the builders create condition trees only through ConditionGroup::{single,and,or,not,exists,forall}.
+    Each must return, on every path, exactly the variant it is named after with its parameters in place (boxed) - a
+    constructor that rewrites the tree (folds a negation into a complementary operator, reorders operands, collapses double
+    negation) changes either the tree the parser reports (C04) or the truth value for missing / non-numeric operands (C01)."""
+    n = 0
+    for name, (variant, fields, conn) in sorted(CTORS.items()):
+        cands = [f for f in P.fns.values() if f.name == CG + "::" + name]
+        if len(cands) != 1:
+            R.undecide(clause, "ctor:" + name, "constructor ConditionGroup::%s not found" % name)
+            continue
+        f = cands[0]
+        n += 1
+        rs = A.returned_syms(f)
+        switches = [b for b in f.normal_blocks() if f.term(b)[2] == "switch"]
+        why = None
+        if len(rs) != 1 or switches:
+            why = "has %d return values and %d branches: it does not always build %s" % (len(rs), len(switches), variant)
+        else:
+            s = strip(rs[0][1])
+            if not (s[0] == "agg" and s[1].endswith("ConditionGroup::" + variant)):
+                why = "returns `%s`, not the %s variant" % (fmt_sym(s, maxdepth=5), variant)
+            else:
+                ops = s[2]
+                fnames = list(s[3]) if len(s) > 3 and s[3] else [str(i) for i in range(len(ops))]
+                got = dict(zip(fnames, ops))
+                for fld, pidx in fields.items():
+                    o = got.get(fld)
+                    if o is None:
+                        why = "does not set field %s" % fld
+                        break
+                    x = strip(o)
+                    if x[0] == "call" and x[1].endswith("Box::new") and x[2]:
+                        x = strip(x[2][0])
+                    if not (x[0] == "param" and x[1] == pidx):
+                        why = "field %s of the %s it builds is `%s`, not its parameter #%d" % (fld, variant, fmt_sym(x, maxdepth=5), pidx)
+                        break
+                if why is None and conn is not None:
+                    o = got.get("operator")
+                    txt = fmt_sym(o, maxdepth=4) if o is not None else ""
+                    if not txt.rstrip("{}").endswith("LogicalOperator::" + conn):
+                        why = "builds a Compound with connective `%s`, expected %s" % (txt, conn)
+        if why:
+            R.violate(clause, "ctor-rewrites:%s" % name, "ConditionGroup::%s %s" % (name, why), f)
+        else:
+            R.hold(clause, "ConditionGroup::%s(..) == %s{its parameters, in place}" % (name, variant), fn=f)
+    return n
